@@ -36,7 +36,7 @@ def shards(tier):
 
 def required_counters(tier):
     d = {"transform." + t: 50 for t in TRANSFORMS}
-    d.update({"eager.accept": 50, "eager.reject": 50, "value_independence": 100, "pytree_args": 20, "tracer_checks_observed": 500, "oracle_crosscheck": 100})
+    d.update({"eager.accept": 50, "eager.reject": 50, "value_independence": 100, "pytree_args": 20, "tracer_checks_observed": 500, "oracle_crosscheck": 100, "param_named_like_symbolic_name": 30})
     return d
 
 
@@ -121,13 +121,28 @@ def run_case(rec, rng, rngkey=None):
     shapes = [[max(s, 1) for s in sh] for sh in shapes]  # vmap/grad dislike size-0 axes; sizes >= 1
     if retshape is not None:
         retshape = [max(s, 1) for s in retshape]
+    if rng.random() < 0.25:
+        # a scalar-array parameter whose NAME also occurs in a symbolic axis without being an axis:
+        # the name is unbound (AnnotationError, eagerly and traced alike) - the parameter's VALUE must
+        # never leak into the size comparison
+        pname = rng.choice(("k", "n", "q"))
+        sig["params"].append([pname, ""])
+        shapes.append([])
+        expr = rng.choice((f"{pname}+1", f"2*{pname}", f"a+{pname}"))
+        if sig["ret"] is not None and rng.random() < 0.6:
+            sig["ret"] = (sig["ret"] + " " + expr).strip()
+            retshape = list(retshape) + [2]
+        else:
+            sig["params"][0][1] = (sig["params"][0][1] + " " + expr).strip()
+            shapes[0] = list(shapes[0]) + [2]
+        rec.count("param_named_like_symbolic_name")
     names = [p[0] for p in sig["params"]]
-    tree_param = names[-1] if (len(names) >= 2 and rng.random() < 0.3) else None
+    tree_param = names[-2] if (len(names) >= 3 and rng.random() < 0.3) else None
     if tree_param is not None:
         rec.count("pytree_args")
     pairs = [(M.parse(p[1]), tuple(sh)) for p, sh in zip(sig["params"], shapes)]
     if tree_param is not None:
-        pairs.append(pairs[-1])  # the tree holds two leaves of the same shape
+        pairs.append(pairs[names.index(tree_param)])  # the tree holds two leaves of the same shape
     if sig["ret"] is not None:
         pairs.append((M.parse(sig["ret"]), tuple(retshape)))
     oracle = SAT.satisfiable(pairs)
